@@ -378,42 +378,42 @@ for op in ("+=", "-=", "*=", "/="):
     t("@augassign_d", op, None, "self.ad_ " + op + " {0}", [DEC], decls=["ad_: decimal"], post=(DEC, "self.ad_"))
 # ---- source and destination of an assignment overlap / an operand is modified while the statement is evaluated
 DZ = ["dz_: DynArray[uint256, 4]"]
-t("@alias", "append_elem", None, "self.dz_ = [1, 2]\n    self.dz_.append(self.dz_[{0} % 2])", [U256], decls=DZ, post=("DynArray[uint256, 4]", "self.dz_"))
-t("@alias", "append_pop", None, "self.dz_ = [1, {0}, 3]\n    self.dz_.append(self.dz_.pop())", [U256], decls=DZ, post=("DynArray[uint256, 4]", "self.dz_"))
-t("@alias", "index_pop", None, "self.dz_ = [1, 2, {0}]\n    self.dz_[0] = self.dz_.pop()", [U256], decls=DZ, post=("DynArray[uint256, 4]", "self.dz_"))
-t("@alias", "index_len", None, "self.dz_ = [1, 2, {0}]\n    self.dz_[len(self.dz_) - 1] = len(self.dz_)", [U256], decls=DZ, post=("DynArray[uint256, 4]", "self.dz_"))
-t("@alias", "self_assign", None, "self.dz_ = [1, {0}]\n    self.dz_ = self.dz_", [U256], decls=DZ, post=("DynArray[uint256, 4]", "self.dz_"))
-t("@alias", "dyn_rebuild", None, "m_: DynArray[uint256, 4] = [{0}, 2]\n    m_ = [m_[1], m_[0], m_[1]]", [U256], post=("DynArray[uint256, 4]", "m_"))
-t("@alias", "dyn_rebuild_storage", None, "self.dz_ = [{0}, 2]\n    self.dz_ = [self.dz_[1], self.dz_[0], self.dz_[1]]", [U256], decls=DZ,
+t("@alias_append_elem", "", None, "self.dz_ = [1, 2]\n    self.dz_.append(self.dz_[{0} % 2])", [U256], decls=DZ, post=("DynArray[uint256, 4]", "self.dz_"))
+t("@alias_append_pop", "", None, "self.dz_ = [1, {0}, 3]\n    self.dz_.append(self.dz_.pop())", [U256], decls=DZ, post=("DynArray[uint256, 4]", "self.dz_"))
+t("@alias_index_pop", "", None, "self.dz_ = [1, 2, {0}]\n    self.dz_[0] = self.dz_.pop()", [U256], decls=DZ, post=("DynArray[uint256, 4]", "self.dz_"))
+t("@alias_index_len", "", None, "self.dz_ = [1, 2, {0}]\n    self.dz_[len(self.dz_) - 1] = len(self.dz_)", [U256], decls=DZ, post=("DynArray[uint256, 4]", "self.dz_"))
+t("@alias_self_assign", "", None, "self.dz_ = [1, {0}]\n    self.dz_ = self.dz_", [U256], decls=DZ, post=("DynArray[uint256, 4]", "self.dz_"))
+t("@alias_dyn_rebuild", "", None, "m_: DynArray[uint256, 4] = [{0}, 2]\n    m_ = [m_[1], m_[0], m_[1]]", [U256], post=("DynArray[uint256, 4]", "m_"))
+t("@alias_dyn_rebuild_storage", "", None, "self.dz_ = [{0}, 2]\n    self.dz_ = [self.dz_[1], self.dz_[0], self.dz_[1]]", [U256], decls=DZ,
   post=("DynArray[uint256, 4]", "self.dz_"))
-t("@alias", "bytes_slice", None, "m_: Bytes[64] = {0}\n    m_ = slice(m_, 1, 2)", [BY], post=(BY, "m_"))
-t("@alias", "bytes_slice_storage", None, "self.zb_ = {0}\n    self.zb_ = slice(self.zb_, 1, 2)", [BY], decls=["zb_: Bytes[64]"], post=(BY, "self.zb_"))
-t("@alias", "bytes_concat", None, "m_: Bytes[64] = slice({0}, 0, 4)\n    m_ = concat(slice(m_, 2, 2), slice(m_, 0, 2), slice(m_, 1, 3))", [BY], post=(BY, "m_"))
-t("@alias", "string_concat_storage", None, "self.zs_ = slice({0}, 0, 4)\n    self.zs_ = concat(slice(self.zs_, 2, 2), slice(self.zs_, 0, 2))", [ST],
+t("@alias_bytes_slice", "", None, "m_: Bytes[64] = {0}\n    m_ = slice(m_, 1, 2)", [BY], post=(BY, "m_"))
+t("@alias_bytes_slice_storage", "", None, "self.zb_ = {0}\n    self.zb_ = slice(self.zb_, 1, 2)", [BY], decls=["zb_: Bytes[64]"], post=(BY, "self.zb_"))
+t("@alias_bytes_concat", "", None, "m_: Bytes[64] = slice({0}, 0, 4)\n    m_ = concat(slice(m_, 2, 2), slice(m_, 0, 2), slice(m_, 1, 3))", [BY], post=(BY, "m_"))
+t("@alias_string_concat_storage", "", None, "self.zs_ = slice({0}, 0, 4)\n    self.zs_ = concat(slice(self.zs_, 2, 2), slice(self.zs_, 0, 2))", [ST],
   decls=["zs_: String[64]"], post=(ST, "self.zs_"))
-t("@alias", "list_swap", None, "m_: uint256[2] = {0}\n    m_ = [m_[1], m_[0]]", [ARR2], post=(ARR2, "m_"))
-t("@alias", "list_swap_storage", None, "self.za_ = {0}\n    self.za_ = [self.za_[1], self.za_[0]]", [ARR2], decls=["za_: uint256[2]"], post=(ARR2, "self.za_"))
-t("@alias", "list_swap_transient", None, "self.ta_ = {0}\n    self.ta_ = [self.ta_[1], self.ta_[0]]", [ARR2], decls=["ta_: transient(uint256[2])"],
+t("@alias_list_swap", "", None, "m_: uint256[2] = {0}\n    m_ = [m_[1], m_[0]]", [ARR2], post=(ARR2, "m_"))
+t("@alias_list_swap_storage", "", None, "self.za_ = {0}\n    self.za_ = [self.za_[1], self.za_[0]]", [ARR2], decls=["za_: uint256[2]"], post=(ARR2, "self.za_"))
+t("@alias_list_swap_transient", "", None, "self.ta_ = {0}\n    self.ta_ = [self.ta_[1], self.ta_[0]]", [ARR2], decls=["ta_: transient(uint256[2])"],
   post=(ARR2, "self.ta_"))
-t("@alias", "struct_swap", None, "p_: P_ = P_(x={0}, y=2)\n    p_ = P_(x=p_.y, y=p_.x)", [U256], decls=["struct P_:\n    x: uint256\n    y: uint256\n"],
+t("@alias_struct_swap", "", None, "p_: P_ = P_(x={0}, y=2)\n    p_ = P_(x=p_.y, y=p_.x)", [U256], decls=["struct P_:\n    x: uint256\n    y: uint256\n"],
   post=(ARR2, "[p_.x, p_.y]"))
-t("@alias", "struct_swap_storage", None, "self.sp_ = P_(x={0}, y=2)\n    self.sp_ = P_(x=self.sp_.y, y=self.sp_.x)", [U256],
+t("@alias_struct_swap_storage", "", None, "self.sp_ = P_(x={0}, y=2)\n    self.sp_ = P_(x=self.sp_.y, y=self.sp_.x)", [U256],
   decls=["struct P_:\n    x: uint256\n    y: uint256\n", "sp_: P_"], post=(ARR2, "[self.sp_.x, self.sp_.y]"))
-t("@alias", "internal_modifies_arg", None, "self.za_ = {0}\n    self.cnt_ = self._m_(self.za_)", [ARR2], decls=["za_: uint256[2]", "cnt_: uint256"],
+t("@alias_internal_modifies_arg", "", None, "self.za_ = {0}\n    self.cnt_ = self._m_(self.za_)", [ARR2], decls=["za_: uint256[2]", "cnt_: uint256"],
   helpers=["@internal\ndef _m_(x: uint256[2]) -> uint256:\n    self.za_[0] = 99\n    return x[0]\n"], post=(ARR2, "[self.cnt_, self.za_[0]]"))
-t("@alias", "internal_modifies_bytes_arg", None, "self.zb_ = {0}\n    self.zc_ = self._m_(self.zb_)", [BY], decls=["zb_: Bytes[64]", "zc_: Bytes[64]"],
+t("@alias_internal_modifies_bytes_arg", "", None, "self.zb_ = {0}\n    self.zc_ = self._m_(self.zb_)", [BY], decls=["zb_: Bytes[64]", "zc_: Bytes[64]"],
   helpers=["@internal\ndef _m_(x: Bytes[64]) -> Bytes[64]:\n    self.zb_ = b\"changed\"\n    return x\n"], post=(BY, "self.zc_"))
-t("@alias", "internal_two_storage_args", U256, "self._m_(self.za_, self._w_({0}))", [U256], decls=["za_: uint256[2]"],
+t("@alias_internal_two_storage_args", "", U256, "self._m_(self.za_, self._w_({0}))", [U256], decls=["za_: uint256[2]"],
   helpers=["@internal\ndef _w_(v: uint256) -> uint256:\n    self.za_[0] = v\n    return v\n",
            "@internal\ndef _m_(x: uint256[2], y: uint256) -> uint256:\n    return x[0]\n"])
-t("@alias", "ifexp_self", None, "self.za_ = {0}\n    self.za_ = (self.za_ if b_ else [self.za_[1], 7])", [ARR2], decls=["za_: uint256[2]"], post=(ARR2, "self.za_"))
-t("@alias", "augassign_call", None, "self.cnt_ = 1\n    self.cnt_ += self._w_({0})", [U256], decls=["cnt_: uint256"],
+t("@alias_ifexp_self", "", None, "self.za_ = {0}\n    self.za_ = (self.za_ if b_ else [self.za_[1], 7])", [ARR2], decls=["za_: uint256[2]"], post=(ARR2, "self.za_"))
+t("@alias_augassign_call", "", None, "self.cnt_ = 1\n    self.cnt_ += self._w_({0})", [U256], decls=["cnt_: uint256"],
   helpers=["@internal\ndef _w_(v: uint256) -> uint256:\n    self.cnt_ = 10\n    return v % 100\n"], post=(U256, "self.cnt_"))
-t("@alias", "index_call", None, "self.za_ = [5, 6]\n    self.za_[self._w_({0})] = 9", [U256], decls=["za_: uint256[2]"],
+t("@alias_index_call", "", None, "self.za_ = [5, 6]\n    self.za_[self._w_({0})] = 9", [U256], decls=["za_: uint256[2]"],
   helpers=["@internal\ndef _w_(v: uint256) -> uint256:\n    self.za_ = [1, 1]\n    return v % 2\n"], post=(ARR2, "self.za_"))
-t("@alias", "return_tuple_modified", f"({U256}, {U256})", "self.cnt_, self._w_({0})", [U256], decls=["cnt_: uint256"],
+t("@alias_return_tuple_modified", "", f"({U256}, {U256})", "self.cnt_, self._w_({0})", [U256], decls=["cnt_: uint256"],
   helpers=["@internal\ndef _w_(v: uint256) -> uint256:\n    self.cnt_ += 1\n    return v\n"])
-t("@alias", "log_modified", None, "log Ea_(x=self.cnt_, y=self._w_({0}), z=self.cnt_)", [U256], decls=["cnt_: uint256", "event Ea_:\n    x: uint256\n    y: uint256\n    z: uint256\n"],
+t("@alias_log_modified", "", None, "log Ea_(x=self.cnt_, y=self._w_({0}), z=self.cnt_)", [U256], decls=["cnt_: uint256", "event Ea_:\n    x: uint256\n    y: uint256\n    z: uint256\n"],
   helpers=["@internal\ndef _w_(v: uint256) -> uint256:\n    self.cnt_ += 1\n    return v\n"])
 t("@assert_reason", "", None, "assert b_, {0}", [ST])
 t("@raise_reason", "", None, "raise {0}", [ST])
